@@ -15,6 +15,7 @@ def run(rep):
     h2(rep, w)
     h3(rep, w)
     h4(rep, w)
+    h5(rep, w)
 
 
 def discr_switches(f, adt_path):
@@ -206,3 +207,9 @@ def h4(rep, w):
     f = w.require_fn('yarel::vm::Vm::build_hash_map', 'C12')
     fresh = [bi for bi, t in f.calls() if callee_name(t) == 'yarel::vm::Vm::new_root_obj_hash_map']
     r.check(bool(fresh), 'build_hash_map fills a fresh map', 'build_hash_map no longer builds into a new map object', f.loc())
+
+
+def h5(rep, w):
+    import locks
+    r = rep.rule('H5', 'the hashability test restores its re-entrancy guard on every exit (a stuck guard makes an unhashable tuple look hashable)', floor=1)
+    locks.check_guards(r, w, ['yarel::object::ObjTuple::has_hash'])
